@@ -305,3 +305,25 @@ package ast
 //@   ensures {the.survivor.takes.over.the.winning.mark.of.the.right.field} g_le && g_re && g_li > g_ri ==> len(d.Fields[left].Directives.Refs) > 0 && d.Fields[left].Directives.Refs[len(d.Fields[left].Directives.Refs) - 1] == g_rref
 //@   modifies *
 //@   safety no-bounds
+
+// C03, @skip/@include on a variable: when the request provides no value, the default that decides is the default of a
+// variable definition of an operation that is still part of the document - not of a definition that merely sits in
+// the document's arrays (operations that were removed, e.g. the ones not selected by the operation name, stay there).
+//@ spec isLiveVariableDefinition(d *Document, v int) bool = exists r in 0..len(d.RootNodes) :: d.RootNodes[r].Kind == NodeKindOperationDefinition && (exists k in 0..len(d.OperationDefinitions[d.RootNodes[r].Ref].VariableDefinitions.Refs) :: d.OperationDefinitions[d.RootNodes[r].Ref].VariableDefinitions.Refs[k] == v)
+//@ func Document.GetVariableBooleanValue
+//@   requires d != nil
+//@   at call Document.VariableDefinitionNameString: assert {only.variable.definitions.of.operations.still.in.the.document.are.consulted} isLiveVariableDefinition(d, arg1)
+//@   modifies *
+//@   safety no-bounds
+
+// C03, removing a directive (or any ref) from a list while a walker is ranging over that list: the array the walker
+// took its range from is not written - the shortened list is a new array. Shifting in place made the walker skip the
+// directive that moved into the freed slot (a second @skip/@include on the same node was not evaluated) and visit the
+// last one twice.
+//@ func deleteRef
+//@   requires refs != nil
+//@   assumes {the.position.exists} 0 <= index && index < len(*refs)
+//@   ensures {one.ref.less} len(*refs) == old(len(*refs)) - 1
+//@   ensures {the.refs.before.stay.the.refs.after.move.up} (forall k in 0..index :: (*refs)[k] == old((*refs)[k])) && (forall k in index..len(*refs) :: (*refs)[k] == old((*refs)[k + 1]))
+//@   ensures {the.array.a.walker.may.be.ranging.over.is.not.written} forall k in 0..old(len(*refs)) :: old(*refs)[k] == old((*refs)[k])
+//@   modifies *
